@@ -278,6 +278,8 @@ class IoWorld(World):
             use_t = False
         elif r.random() < 0.25:
             st["wapi"] = "tocsv"
+        if r.random() < 0.08:
+            st["pre_export"] = r.choice(["kml", "geojson"])
         if "af" in tspec and st.get("wapi") != "defaults" and r.random() < 0.6:
             st["waf"] = True            # the feature is written too (af_names): columns after the coordinates and the time
         f = self._fault(r, WRITE_FAULTS)
@@ -642,6 +644,19 @@ class IoWorld(World):
         self._outcome = "ok"
         if st["path"] in self.cat and self.cat[st["path"]]["state"] == "acked":
             self.probe("overwrite_acked_file")
+        if st.get("pre_export"):
+            # the same track object is first exported by another writer of the library (KML file, GeoJSON
+            # text): neither may leave a trace on the track or on the global formats
+            how = st["pre_export"]
+            if how == "kml":
+                _, exc0 = self.call(TrackWriter.writeToKml, track, "/sim/u%d/export.kml" % st.get("s", 0),
+                                    "POINT" if len(eff["obs"]) % 2 else "LINE")
+            else:
+                _, exc0 = self.call(TrackWriter.exportToGeojson, track, "POINT" if len(eff["obs"]) % 2 else "LINE")
+            if exc0 is not None and not isinstance(exc0, Exception):
+                self.fail("C13", "csv.write.raised", "export of the track (%s) before the CSV write ended in %r" % (how, exc0))
+                return "raised"
+            self.probe("track_exported_by_another_writer_first")
         if st.get("wapi") == "tocsv":
             from tracklib.io.track_format import TrackFormat
             tf, exc0 = self.call(TrackFormat, {"ext": "CSV", "id_E": ids[0], "id_N": ids[1], "id_U": ids[2],
